@@ -101,6 +101,11 @@ static int audit_node(const struct cstl_bintree_node *n, const struct cstl_bintr
     int lh, rh, black;
     if (n == NULL) return 0;
     if (depth > 64 || a_count > nent + 2) VIOL("tree_cycle", "walk over the map's tree does not terminate");
+    {
+        int live; size_t off, size;
+        if (simheap_find(n, &live, &off, &size) < 0 || !live || off + sizeof(*n) > size)
+            VIOL("tree_dangling", "the map's tree links to memory that is not inside a live map node");
+    }
     a_count++;
     if (n->p != parent) VIOL("tree_parent", "map tree: a parent link is wrong");
     rn = (const struct cstl_rbtree_node *)((const char *)n - offsetof(struct cstl_rbtree_node, n));
